@@ -461,6 +461,29 @@ def bounds(tier, seed):
                     "lat_deg": [float(x) for x in m["lat"][c]]}
             cases += _check_face(B[f], orc, desc, fails)
             keys.add((m["name"], f))
+    # ---------------------------------------------------------------- a "return only" bounds computation leaves Grid.bounds alone
+    # (_populate_bounds(..., return_array=True) with the constant-latitude-edge reading, shown in its docstring, before Grid.bounds)
+    try:
+        from uxarray.grid.geometry import _populate_bounds as _pb
+    except Exception:  # noqa: BLE001
+        _pb = None
+    if _pb is not None:
+        for m in [x for x in meshes if x["n_face"] <= 12][:3]:
+            cases += 1
+            try:
+                ref = np.asarray(grid_of(m).bounds.values, float)
+                g2 = grid_of(m)
+                _pb(g2, is_latlonface=True, return_array=True)
+                got = np.asarray(g2.bounds.values, float)
+            except Exception:  # noqa: BLE001   (signature / availability of the internal entry point is not the property's subject)
+                continue
+            if got.shape != ref.shape or not np.allclose(got, ref, rtol=0, atol=1e-12, equal_nan=True):
+                f = int(np.argmax(np.abs(got - ref).reshape(len(ref), -1).max(axis=1))) if got.shape == ref.shape else 0
+                fails.append({"key": "bounds_depend_on_history:after_return_only_latlonface_computation",
+                              "what": "Grid.bounds read after _populate_bounds(grid, is_latlonface=True, return_array=True) differs from Grid.bounds of a fresh grid "
+                                      "(the great-circle box was replaced by the constant-latitude-edge box)",
+                              "violated": "every point of every great-circle edge lies within the bounds", "inputs": {"mesh": m["name"], "face": f},
+                              "observed": got[f].tolist() if got.shape == ref.shape else list(got.shape), "expected": ref[f].tolist()})
     # ---------------------------------------------------------------- generated single faces, packed into grids of mixed size
     n_per = 6 if tier == "quick" else 1200
     faces = _scenario_faces(rng, n_per)
